@@ -15,7 +15,7 @@ pub const SITES: [&str; 8] = [
     "unify_sub_ty",
     "context_class",
     "class_has_parent",
-    "reserved",
+    "constrain_generate",
 ];
 
 thread_local! {
